@@ -17,8 +17,10 @@ The debounce timers of one notification kind are modelled as
   `pending`  — callbacks started by a firing timer that have not yet taken `Server.mu`.
 `Timer.Reset` on a fired `AfterFunc` timer re-arms it (trusted runtime semantics, DESIGN §3).
 
-The model describes the REPAIRED tree: the deferred clean-up of `subscriptionsListen` removes only
-table entries that carry the id of the listen that ends (fixes/F19-listen-cleanup-by-id.patch).
+The model describes the REPAIRED tree: the deferred clean-up of `subscriptionsListen` touches only
+table entries that carry the id of the listen that ends (fixes/F19-listen-cleanup-by-id.patch), and
+such an entry is handed over to the newest other open stream of the session that was granted the same
+notification (fixes/notify-F30-overlapping-listens.patch; `Server.listens` is the field `listens`).
 
 A `subscriptionsListen` handler is TWO labels: `listen` = its registration section under `Server.mu`
 (the list-changed tables, resp. the one `subscribe` call), `listenAck` = the write of
@@ -29,13 +31,17 @@ registers BEFORE it acknowledges: from the instant the client can hold the ackno
 `notifySessions` snapshot and every `ResourceUpdated` lookup finds the session.
 
 Environment assumptions, enforced as guards of the labels (a label whose guard fails is a no-op):
-the SDK client opens `subscriptions/listen` only on a 2026-07-28 session, at most one live listen
-per session asks for a given list-changed kind or a given URI, one listen asks either for
-list-changed kinds only (the connect-time listen) or for exactly one URI (`ClientSession.Subscribe`)
-— so its registration is ONE critical section of the Go code —, and `resources/subscribe` /
-`resources/unsubscribe` are used only by legacy sessions (`ClientSession.Subscribe` does exactly this).
+`subscriptions/listen` is opened only on a 2026-07-28 session, the request ids of the open listens of
+one session are distinct (JSON-RPC), one listen asks either for list-changed kinds only (the
+connect-time listen) or for exactly one URI (`ClientSession.Subscribe`) — so its registration is ONE
+critical section of the Go code —, and `resources/subscribe` / `resources/unsubscribe` are used only
+by legacy sessions (`ClientSession.Subscribe` does exactly this).  ANY number of open listens of one
+session may ask for the same kind or the same URI, and they end in any order.
 
-Ghost fields (never read by the modelled code): `owed`, `listens`, `acked`, `rlive`.
+`listens` is `Server.listens` (open streams, NEWEST FIRST here, oldest first in Go) and at the same
+time the record of the live handlers the theorems speak about: it is written only by the labels that
+are the begin and the end of a handler (`listen_recorded`, `listens_persist` in Props.lean).
+Ghost fields (never read by the modelled code): `owed`, `acked`, `rlive`.
 Core Lean only (linked into the driver).
 -/
 namespace Notify
@@ -65,8 +71,8 @@ structure KState where
   /-- `toolChangeSubscriptions` etc.: session id ↦ listen request id -/
   subs : List (Nat × Nat) := []
 
-/-- ghost: a live `subscriptionsListen` handler (from its registration section on) and what it was
-granted (`allowed`, a local variable of the handler) -/
+/-- `listenStream`: a live `subscriptionsListen` handler (from its registration section on) and what
+it was granted (`allowed`) -/
 structure Listen where
   sid : Nat
   id : Nat
@@ -86,14 +92,14 @@ structure Server where
   /-- ghost: (session, kind) — the session has been connected since a gated change of that kind
   that no snapshot has covered yet -/
   owed : List (Nat × Kind)
-  /-- ghost: live listen handlers -/
+  /-- `Server.listens`: the open streams, newest first -/
   listens : List Listen
   /-- ghost: (session, listen id) — live listen handlers that have written their acknowledgement,
   i.e. subscriptions the CLIENT may know to be live -/
   acked : List (Nat × Nat)
-  /-- ghost: (session, uri) — resource subscriptions that were requested and registered and not yet
-  undone (for a 2026-07-28 session: from the registration section of the listen, which precedes its
-  acknowledgement, to the end of the listen) -/
+  /-- ghost: (session, uri) — `resources/subscribe` requests of legacy sessions that were registered
+  and not yet undone (the live subscriptions of a 2026-07-28 session are the grants of its open
+  listens) -/
   rlive : List (Nat × Nat)
 
 def init (cap : Kind → Cap) : Server :=
@@ -235,19 +241,30 @@ def hello (s : Server) (sid : Nat) (modern : Bool) : Server :=
     { s with sessions := s.sessions.map (fun p => if p.1 = sid then (sid, if modern then .modern else .legacy) else p) }
   else s
 
-/-- The SDK client never has two live listens of one session that share an id, a kind or a URI. -/
-def listenOk (s : Server) (sid id : Nat) (kinds : List Kind) (uris : List Nat) : Bool :=
-  s.listens.all (fun l => l.sid != sid ||
-    (l.id != id && kinds.all (fun k => !l.kinds.contains k) && uris.all (fun u => !l.uris.contains u)))
+/-- The request ids of the open listens of one session are distinct. -/
+def listenOk (s : Server) (sid id : Nat) : Bool :=
+  s.listens.all (fun l => !(l.sid == sid && l.id == id))
 
 /-- What one listen of the SDK client asks for: list-changed kinds only, or exactly one URI. -/
 def listenShape (kinds : List Kind) (uris : List Nat) : Bool :=
   uris.isEmpty || (kinds.isEmpty && uris.length == 1)
 
+/-- The stream was granted a kind whose subscription table is `t`. -/
+def grantsK (t : Kind) (l : Listen) : Bool := l.kinds.any (fun k => listenTable k == some t)
+
+/-- The stream was granted the URI. -/
+def grantsU (u : Nat) (l : Listen) : Bool := l.uris.contains u
+
+/-- `handOver`: the id of the newest stream of session `sid` among `ls` (newest first) for which
+`granted` holds. -/
+def heir (ls : List Listen) (sid : Nat) (granted : Listen → Bool) : Option Nat :=
+  (ls.find? (fun l => l.sid == sid && granted l)).map (·.id)
+
 /-- The registration section of `subscriptionsListen` (`allowedSubscriptions`, then the tables under
-`Server.mu`, resp. the `subscribe` call of the one URI).  Nothing is written to the client here. -/
+`Server.mu`, resp. the `subscribe` call of the one URI).  Nothing is written to the client here.
+An entry of the same session is overwritten: the tables hold the id of the newest stream. -/
 def listen (s : Server) (sid id : Nat) (kinds : List Kind) (uris : List Nat) : Server :=
-  if (sid, Gen.modern) ∈ s.sessions ∧ listenOk s sid id kinds uris = true ∧ uris.Nodup ∧
+  if (sid, Gen.modern) ∈ s.sessions ∧ listenOk s sid id = true ∧ uris.Nodup ∧
       listenShape kinds uris = true then
     let ak := kinds.filter (gateListen s)
     let au := if resSub s then uris else []
@@ -255,14 +272,13 @@ def listen (s : Server) (sid id : Nat) (kinds : List Kind) (uris : List Nat) : S
         ks := fun t => { s.ks t with
           subs := if ak.any (fun k => listenTable k == some t) then put (s.ks t).subs sid id else (s.ks t).subs },
         rsubs := s.rsubs.filter (fun r => !(r.2.1 == sid && au.contains r.1)) ++ au.map (fun u => (u, sid, id)),
-        rlive := s.rlive ++ au.map (fun u => (sid, u)),
-        listens := s.listens ++ [⟨sid, id, ak, au⟩] }
+        listens := ⟨sid, id, ak, au⟩ :: s.listens }
   else s
 
 /-- `req.Session.notifySubscriptionAcked(ctx, ackParams)`: the handler that registered as `(sid, id)`
 writes its acknowledgement (once).  It touches no table.  A handler that was granted nothing returns
-right afterwards (its deferred clean-up finds nothing to delete); any other handler parks on
-`ctx.Done()` and is from now on recorded in `acked`. -/
+right afterwards (its deferred clean-up finds nothing to delete or hand over); any other handler parks
+on `ctx.Done()` and is from now on recorded in `acked`. -/
 def listenAck (s : Server) (sid id : Nat) : Server × List Out :=
   match s.listens.find? (fun l => l.sid == sid && l.id == id) with
   | none => (s, [])
@@ -272,17 +288,23 @@ def listenAck (s : Server) (sid id : Nat) : Server × List Out :=
       ({ s with listens := s.listens.filter (fun l' => !(l'.sid == sid && l'.id == id)) }, [.ack sid id [] []])
     else ({ s with acked := s.acked ++ [(sid, id)] }, [.ack sid id l.kinds l.uris])
 
-/-- The deferred clean-up of `subscriptionsListen` (REPAIRED: by request id) and its deferred
-`unsubscribe` calls. -/
+/-- The deferred functions of `subscriptionsListen` (REPAIRED).  Only entries that carry the id of
+the stream that ends are touched (`unsubscribeListen` for its URIs, the by-id clean-up for the
+list-changed tables); each is handed over (`handOver`) to the newest OTHER open stream of the session
+that was granted the same thing, and deleted if there is none. -/
 def listenEnd (s : Server) (sid id : Nat) : Server :=
   match s.listens.find? (fun l => l.sid == sid && l.id == id) with
   | none => s
   | some l =>
+    let rest := s.listens.filter (fun l' => !(l'.sid == sid && l'.id == id))
     { s with
-      ks := fun t => { s.ks t with subs := (s.ks t).subs.filter (fun p => !(p.1 == sid && p.2 == id)) },
-      rsubs := s.rsubs.filter (fun r => !(r.2.1 == sid && l.uris.contains r.1)),
-      rlive := s.rlive.filter (fun p => !(p.1 == sid && l.uris.contains p.2)),
-      listens := s.listens.filter (fun l' => !(l'.sid == sid && l'.id == id)),
+      ks := fun t => { s.ks t with subs := (s.ks t).subs.filterMap (fun p =>
+        if p.1 == sid && p.2 == id then (heir rest sid (grantsK t)).map (fun h => (sid, h)) else some p) },
+      rsubs := s.rsubs.filterMap (fun r =>
+        if r.2.1 == sid && r.2.2 == id && l.uris.contains r.1 then
+          (heir rest sid (grantsU r.1)).map (fun h => (r.1, sid, h))
+        else some r),
+      listens := rest,
       acked := s.acked.filter (fun p => !(p.1 == sid && p.2 == id)) }
 
 def subscribe (s : Server) (sid id uri : Nat) : Server :=
